@@ -149,6 +149,8 @@ def get_attr(it, o, name):
     if isinstance(o, SInt):
         if name in ("real", "numerator"):
             return o
+        if name == "bit_length":
+            return Builtin("int.bit_length", lambda: _bit_length(it, o))
         raise Unsupported(f"int attribute {name}")
     if isinstance(o, (str, list, dict, tuple, set, frozenset, int, float, bool, range)) or o is None:
         return _native_method(it, o, name)
@@ -439,3 +441,20 @@ def set_item(it, o, k, v):
         o[k] = v
         return
     raise Unsupported(f"item store on {o!r}")
+
+
+_BITLEN_MAX = 160
+
+
+def _bit_length(it, o):
+    """int.bit_length() of a symbolic int: a fresh b with the exact characterisation
+    b > k  <=>  |v| >= 2**k  for every k in [0, 160] (so b is determined exactly whenever
+    |v| < 2**160, and comparisons of b with constants up to 160 are exact for every v)."""
+    import z3
+    b = it.ctx.fresh_int("bitlen")
+    v = o.t
+    it.ctx.assume(b.t >= 0)
+    for k in range(_BITLEN_MAX + 1):
+        p = 1 << k
+        it.ctx.assume((b.t > k) == z3.Or(v >= p, v <= -p))
+    return b
